@@ -126,6 +126,11 @@ def build_unit(u, wd, defs):
         src = open(os.path.join(REPO, ex["file"])).read()
         parts = ["/* GENERATED on every run by run.py from %s: preprocessor lines + verbatim text of %s */" % (ex["file"], ", ".join(ex["functions"]))]
         parts += [l for l in src.splitlines() if l.startswith("#")]
+        for rx in ex.get("lines", []):   # verbatim declaration lines (file-scope variables the functions use); each pattern must fire
+            hit = [l for l in src.splitlines() if re.match(rx, l)]
+            if not hit:
+                raise Undecided("extraction: no line matches %s in %s" % (rx, ex["file"]))
+            parts += hit
         for fn in ex["functions"]:
             m = re.search(r"^(?:static )?[A-Za-z_][\w \*]*?\b" + re.escape(fn) + r"\([^;{]*\)\n\{\n.*?^\}\n", src, re.M | re.S)
             if not m:
